@@ -403,7 +403,7 @@ pub fn random_run(rng: &mut Rng, n: usize, p: &RunProfile, cfg_b: bool) -> RunSp
         rs.signal = match rng.below(10) {
             0 => SignalPlan::Never,
             1 | 2 => SignalPlan::BeforeCall,
-            3 | 4 if api.is_fold() && n > 0 => {
+            3 | 4 if !api.is_stream() && n > 0 => {
                 if rng.chance(1, 2) {
                     SignalPlan::AtStart(rng.below(n) as u32)
                 } else {
